@@ -365,17 +365,18 @@ func (c *checker) pbEvent(e *Ev, family string, toCoq bool) {
 			}
 		}
 	}
-	// the collector that turns events back into a value
+	// the collector that turns events back into a value: every AddRef(n) must become the value at position n
 	coll := "(@None (res value))"
 	if wf && collectable(e) {
 		v, vo, _ := runCollector(e)
-		if vo == "" && v != nil && isValueTree(v) {
+		cyclic := v != nil && v.has(func(x *Ev) bool { return x.T == "toodeep" })
+		if vo == "" && v != nil && !cyclic && isValueTree(v) {
 			coll = "(Some (Ok " + v.gValue() + "))"
 		} else if vo != "" {
 			coll = "(Some " + gRes(vo, "value", "") + ")"
 		}
-		if !e.has(func(x *Ev) bool { return x.T == "ref" }) && e.T != "nil" {
-			if vo != "" || !evEq(v, e) {
+		if want, ok := resolveRefs(e); ok && e.T != "nil" {
+			if vo != "" || !evEq(v, want) {
 				fail("pb-stream-roundtrip", fmt.Sprintf("the collector builds %v (%s) from the events %s", v, vo, short(e.String())))
 			}
 		}
@@ -588,4 +589,39 @@ func collectable(e *Ev) bool {
 	}
 	rec(e)
 	return ok
+}
+
+
+// resolveRefs is the reference semantics of a collector: positions are numbered in call order, one per Add
+// and one per AddArray/AddHash (taken when the container is opened), none for AddRef; AddRef(n) stands for the
+// value at position n.  ok=false when a reference is out of range or points to a container still open.
+func resolveRefs(e *Ev) (*Ev, bool) {
+	var vals []*Ev
+	ok := true
+	var rec func(x *Ev) *Ev
+	rec = func(x *Ev) *Ev {
+		switch x.T {
+		case "ref":
+			n := x.Int()
+			if n < 0 || n >= int64(len(vals)) || vals[n] == nil {
+				ok = false
+				return evUndef()
+			}
+			return vals[n]
+		case "arr", "hash":
+			p := len(vals)
+			vals = append(vals, nil)
+			l := make([]*Ev, len(x.L))
+			for i, y := range x.L {
+				l[i] = rec(y)
+			}
+			r := &Ev{T: x.T, L: l}
+			vals[p] = r
+			return r
+		}
+		vals = append(vals, x)
+		return x
+	}
+	r := rec(e)
+	return r, ok
 }
